@@ -331,6 +331,22 @@ def compare(ref, cur, vocab, local_names, local_names_ref=frozenset()):
                                 '%s = <empty> is now initialised outside the loop that rebuilt it'
                                 % nm))
                     return out
+    # O: a library operation replaced by a near relative (split/rsplit, strip/lstrip,
+    # copy/deepcopy, sorted/list, min/max, any/all, match/search/fullmatch, get/setdefault ...):
+    # the two differ on some input by definition
+    if len(ref['calls']) == len(cur['calls']) and same['compound'] and \
+            len(ref['stmts']) == len(cur['stmts']):
+        diffs = [(r_, c_) for r_, c_ in zip(ref['calls'], cur['calls']) if r_ != c_]
+        for (rf, ra), (cf, ca) in diffs:
+            if ra != ca or rf == cf:
+                continue
+            rl, cl = rf.rsplit('.', 1)[-1], cf.rsplit('.', 1)[-1]
+            if rf.rsplit('.', 1)[0] != cf.rsplit('.', 1)[0] and '.' in rf and '.' in cf:
+                continue
+            fam = next((fm for fm in _FAMILIES if rl in fm and cl in fm), None)
+            if fam is not None and rl != cl:
+                out.append(('library call substituted', '%s -> %s' % (rf[:60], cf[:60])))
+                return out
     # N: elements dropped from one tuple / list / set display of an otherwise unchanged statement
     # (the components of a key, of a hash, of a comparison tuple)
     if len(ref['stmts']) == len(cur['stmts']) and same['compound']:
@@ -398,6 +414,26 @@ def _collapsed(ref_iter, cur_iter):
                 unparse(n.value) == ref_iter:
             return 'slice: elements are left out'
     return None
+
+
+_FAMILIES = [
+    {'split', 'rsplit', 'partition', 'rpartition', 'splitlines'},
+    {'strip', 'lstrip', 'rstrip'},
+    {'startswith', 'endswith'},
+    {'copy', 'deepcopy'},
+    {'sorted', 'list', 'tuple', 'set', 'frozenset', 'reversed'},
+    {'min', 'max'}, {'any', 'all'},
+    {'match', 'search', 'fullmatch'},
+    {'get', 'setdefault', 'pop'},
+    {'int', 'float', 'round', 'bool'}, {'str', 'repr'},
+    {'append', 'extend', 'insert'}, {'add', 'update'},
+    {'lower', 'upper', 'title', 'capitalize', 'casefold'},
+    {'find', 'rfind', 'index', 'rindex'},
+    {'join', 'normpath', 'abspath', 'realpath', 'relpath'},
+    {'floor', 'ceil', 'trunc'},
+    {'items', 'keys', 'values'},
+    {'isdigit', 'isalnum', 'isalpha', 'isnumeric', 'isdecimal'},
+]
 
 
 def _is_subsequence(short, long_):
